@@ -112,7 +112,16 @@ func (p *Pipeline) Interpolate(interpolationEnv InterpolationEnv, preferRuntimeE
 // be interpolated into later environment variables, we also add the results
 // to interpolationEnv, making the input ordering of p.Env potentially important.
 func (p *Pipeline) interpolateEnvBlock(interpolationEnv InterpolationEnv, preferRuntimeEnv bool) error {
-	return p.Env.Range(func(k, v string) error {
+	// Interpolate the entries in order, each one seeing the results of the
+	// earlier ones, but only rewrite p.Env afterwards. Renaming a key in place
+	// while ranging (with Replace) would delete a later, not yet visited, entry
+	// whose current key happens to equal the new name, and that entry would be
+	// lost.
+	type entry struct {
+		oldKey, newKey, value string
+	}
+	entries := make([]entry, 0, p.Env.Len())
+	if err := p.Env.Range(func(k, v string) error {
 		// We interpolate both keys and values.
 		intk, err := interpolate.Interpolate(interpolationEnv, k)
 		if err != nil {
@@ -125,7 +134,7 @@ func (p *Pipeline) interpolateEnvBlock(interpolationEnv InterpolationEnv, prefer
 			return err
 		}
 
-		p.Env.Replace(k, intk, intv)
+		entries = append(entries, entry{oldKey: k, newKey: intk, value: intv})
 
 		// If the variable already existed and we prefer the runtime environment then don't overwrite it
 		if _, exists := interpolationEnv.Get(intk); !(preferRuntimeEnv && exists) {
@@ -133,5 +142,16 @@ func (p *Pipeline) interpolateEnvBlock(interpolationEnv InterpolationEnv, prefer
 		}
 
 		return nil
-	})
+	}); err != nil {
+		return err
+	}
+
+	// Rebuild the env block in the same order.
+	for _, e := range entries {
+		p.Env.Delete(e.oldKey)
+	}
+	for _, e := range entries {
+		p.Env.Set(e.newKey, e.value)
+	}
+	return nil
 }
